@@ -175,7 +175,7 @@ class Cfg:
         return hashlib.new(self.halgo).digest_size * 2
 
 
-def make_store(root, cfg=None, real_primitives=False):
+def make_store(root, cfg=None, real_primitives=False, mp_mode=False):
     """A FileHashStore on `root`.  By default it is constructed over the scheduler-aware Lock / Condition
     shims (sched.py): semantics are unchanged for single-threaded use, but a call that would WAIT (on an
     identifier some earlier call left locked) raises sched.WouldBlockForever instead of hanging the harness."""
@@ -183,8 +183,11 @@ def make_store(root, cfg=None, real_primitives=False):
     if real_primitives:
         return hs().FileHashStore(cfg.props(root))
     from . import sched
-    with sched.shimmed_primitives(mp_mode=False):
-        return hs().FileHashStore(cfg.props(root))
+    with sched.shimmed_primitives(mp_mode=mp_mode):
+        store = hs().FileHashStore(cfg.props(root))
+    if bool(getattr(store, "use_multiprocessing", mp_mode)) != bool(mp_mode):
+        raise RuntimeError(f"harness: store built with use_multiprocessing={store.use_multiprocessing}, wanted {mp_mode}")
+    return store
 
 
 # ---------------------------------------------------------------------------------------------
